@@ -40,7 +40,7 @@ def rss_tree_kb(pid):
 
 def run(cmd, cwd, env, timeout, memcap_kb=None):
     """Run in its own process group; kill the group on timeout or when its RSS exceeds memcap. Returns (rc, output tail)."""
-    p = subprocess.Popen(cmd, cwd=cwd, env=env, stdout=subprocess.PIPE, stderr=subprocess.STDOUT, text=True, start_new_session=True)
+    p = subprocess.Popen(cmd, cwd=cwd, env=env, stdout=subprocess.PIPE, stderr=subprocess.STDOUT, text=True, errors="replace", start_new_session=True)
     killed = []
 
     def watch():
@@ -148,6 +148,7 @@ def main():
         # vet findings are not a filter (the suite runs with -vet=off); only recorded
         m["vet"] = "clean" if rc == 0 else "complains"
         rc, out = run(["go", "test", "-overlay=" + ovl, "-vet=off", "-p", "4", "-timeout", "150s", "./..."], REPO, ENV, 900, 16 * 1024 * 1024)
+        subprocess.run(["find", REPO, "-name", "-", "-type", "f", "-not", "-path", "*/.git/*", "-delete"])
         fails = [l for l in out.splitlines() if l.startswith("--- FAIL") or l.startswith("FAIL\t") or l.startswith("panic:")]
         fails = [l for l in fails if "TestTryWriteCSV" not in l and l.strip() != "FAIL\trare/cmd/helpers" and not l.startswith("FAIL\trare/cmd/helpers\t")]
         if rc == 0 or not fails:
